@@ -4,6 +4,7 @@
   (ties in distance excluded from the comparison, as the property states).
 -/
 import VerdeModel.Gen.DistMask
+import VerdeModel.Gen.Distances
 import VerdeModel.Gen.Neighbors
 import VerdeModel.Model.Neighbors
 import VerdeModel.Lemmas.MinMax
@@ -287,5 +288,49 @@ theorem gen_distance_mask_eq_model (nearest : List (List Rat) → List (List Rat
     simp only [projected2] at hne ⊢
     simp only [Option.map_some, List.take_succ_cons, List.take_zero, applyProjTbl, List.getD_cons_zero, List.getD_cons_succ]
     exact mask_core nearest hc _ _ _ _ m hne
+
+/-! ## `median_distance` and `KNeighbors.fit` as regenerated from the source (Gen/Distances.lean) -/
+
+/-- What `kdtree(P).query(P, k)[0]` promises: for each point, the Euclidean distances to its `k` nearest points, nearest first (the square roots of
+    the model's sorted squared distances). -/
+def KDistances (tq : List (List Rat) → Nat → List (List ℝ)) : Prop :=
+  ∀ (P : List (List Rat)) (k : Nat),
+    tq P k = ((P.getD 0 []).zip (P.getD 1 [])).map fun p => (kNearest (P.getD 0 []) (P.getD 1 []) p k).map fun x => Real.sqrt (x.1 : ℝ)
+
+theorem median_core (tq : List (List Rat) → Nat → List (List ℝ)) (hc : KDistances tq) (median : List ℝ → ℝ) (es ns : List Rat) (k : Nat) :
+    ((tq [es, ns] (k + 1)).map fun row => row.drop 1).map median
+      = (nearestOthersSq es ns k).map fun row => median (row.map fun (d2 : Rat) => Real.sqrt (d2 : ℝ)) := by
+  rw [hc [es, ns] (k + 1)]
+  simp only [List.getD_cons_zero, List.getD_cons_succ, nearestOthersSq, List.map_map, Function.comp_def, List.map_drop]
+
+/-- **Bridge.**  `median_distance` as regenerated from the source: for each (projected) point, `np.median` of the distances to its `k_nearest`
+    nearest *other* points — `k_nearest + 1` neighbours are asked for and the first, the point itself, is dropped; one value per point. -/
+theorem gen_median_distance_eq_model (tq : List (List Rat) → Nat → List (List ℝ)) (hc : KDistances tq) (median : List ℝ → ℝ)
+    (es ns : List Rat) (rest : List (List Rat)) (k : Nat) (proj : Option Proj) :
+    Gen.medianDistance tq median (es :: ns :: rest) k (proj.map Proj.apply)
+      = (nearestOthersSq (projected2 proj es ns).1 (projected2 proj es ns).2 k).map fun row => median (row.map fun (d2 : Rat) => Real.sqrt (d2 : ℝ)) := by
+  unfold Gen.medianDistance
+  cases proj with
+  | none =>
+    simp only [projected2, Option.map_none, List.take_succ_cons, List.take_zero]
+    exact median_core tq hc median es ns k
+  | some p =>
+    simp only [projected2, Option.map_some, List.take_succ_cons, List.take_zero, applyProjTbl, List.getD_cons_zero, List.getD_cons_succ]
+    exact median_core tq hc median _ _ k
+
+/-- The source's `median_distance` never counts a point as its own neighbour and always reduces exactly `k_nearest` distances per point
+    (when there are more than `k_nearest` points). -/
+theorem src_median_distance_row_length (es ns : List Rat) (k : Nat) (row : List Rat) (hrow : row ∈ nearestOthersSq es ns k)
+    (hk : k < (es.zip ns).length) : row.length = k := by
+  unfold nearestOthersSq at hrow
+  obtain ⟨p, _, rfl⟩ := List.mem_map.mp hrow
+  have hl := (knearest_spec es ns p (k + 1)).1
+  simp only [List.length_map, List.length_drop, hl]
+  omega
+
+/-- **`KNeighbors.fit` as regenerated from the source** keeps the first two coordinate arrays for the tree and the data values unchanged: predicting
+    with what it stored is the model's `knnPredict` on the easting, northing and data given to `fit`. -/
+theorem src_kneighbors_fit_stores (es ns : List Rat) (rest : List (List Rat)) (data : List Rat) :
+    Gen.kneighborsFit (es :: ns :: rest) data = ([es, ns], data) := rfl
 
 end Verde.C15
